@@ -36,7 +36,11 @@ def proof_jobs(tier):
     for k in verify.node_class_table():
         if k.__module__ != "pymbolic.primitives":
             continue
-        jobs.append(("mapper", K.EVAL, k, None))
+        if k.__name__ == "CommonSubexpression":
+            for vn, v in K.EVAL.variants:
+                jobs.append(("mapperv", K.EVAL, (k, vn, v), None))
+        else:
+            jobs.append(("mapper", K.EVAL, k, None))
     for f in FOREIGN:
         jobs.append(("mapper", K.EVAL, f, None))
     for fc in K.FUNCTIONS:
